@@ -64,6 +64,13 @@ func (s gxzScenario) String() string {
 	return fmt.Sprintf("%s/%s %v in=%s inputOk=%v(%s) tgtExists=%v", s.Mode, s.Format, s.Args, s.In, s.Cfg.InputOk, s.Bad, s.Cfg.TgtExists)
 }
 
+func b2i(b bool) int {
+	if b {
+		return 1
+	}
+	return 0
+}
+
 const preExisting = "pre-existing target content\n"
 
 // realise builds the concrete scenarios for an abstract one.
@@ -100,6 +107,9 @@ func realiseGxz(abs gxzScenario, seed int64, thorough bool) []gxzScenario {
 				}
 				if mode == "decompress" {
 					args = append(args, "-d")
+				} else if b2i(abs.Cfg.Keep)+2*b2i(abs.Cfg.Force)+b2i(abs.Cfg.TgtExists)+b2i(format == "lzma") == 2 {
+					// compression requested by -z overriding an earlier -d: same protocol, same guarantees
+					args = append(args, "-d", "-z")
 				}
 				if s.Cfg.Keep {
 					args = append(args, "-k")
@@ -326,7 +336,7 @@ func judgeGxz(c *hx.Ctx, r *gxzRun) {
 		nameClass = "unknown-suffix"
 	}
 	sig := func(kind string) map[string]string {
-		return map[string]string{"kind": kind, "phase": phase, "mode": sc.Mode, "name_class": nameClass, "force": fmt.Sprint(sc.Cfg.Force), "stdout": fmt.Sprint(sc.Cfg.Stdout), "input": sc.Bad, "at": r.at}
+		return map[string]string{"kind": kind, "phase": phase, "mode": sc.Mode, "name_class": nameClass, "force": fmt.Sprint(sc.Cfg.Force), "stdout": fmt.Sprint(sc.Cfg.Stdout), "input": sc.Bad, "at": r.at, "signal": fmt.Sprint(int(r.plan.Signal))}
 	}
 	replay := map[string]any{"scenario": sc.String(), "cfg": sc.Cfg, "args": sc.Args, "plan": r.plan, "at": r.at, "exit": r.res.Exit, "killed": r.res.Killed,
 		"dir": map[string]string{"IN": r.in, "TGT": r.tgt, "TMP": r.tmp}, "stderr": string(r.res.Stderr), "syscalls": r.res.Events}
@@ -346,7 +356,7 @@ func judgeGxz(c *hx.Ctx, r *gxzRun) {
 		// An interrupt is handled asynchronously: only the "at every instant" clauses are judged,
 		// plus gxz's own promise that its handler (exit status 7) removes the temporary file.
 		if r.res.Exit == 7 && r.tmp != "absent" {
-			c.Violation(sig("temp-file-left-after-interrupt"), fmt.Sprintf("%s [SIGINT at %s]: exit 7 but the temporary file remains", sc, r.at), replay)
+			c.Violation(sig("temp-file-left-after-interrupt"), fmt.Sprintf("%s [signal %d at %s]: exit 7 but the temporary file remains", sc, int(r.plan.Signal), r.at), replay)
 		}
 		return
 	}
@@ -482,8 +492,11 @@ func C10(c *hx.Ctx) {
 				mut = 1
 			}
 			plans := []ptr.Plan{{KillAt: j}, {FailAt: j, Errno: errnoFor(base.res.Events[j-1].Name)}}
-			if c.Thorough() || (i+j)%3 == 0 {
-				plans = append(plans, ptr.Plan{SignalAt: j, Signal: syscall.SIGINT})
+			// the two signals gxz handles (interrupt, broken pipe): its handler removes the temporary file
+			if c.Thorough() {
+				plans = append(plans, ptr.Plan{SignalAt: j, Signal: syscall.SIGINT}, ptr.Plan{SignalAt: j, Signal: syscall.SIGPIPE})
+			} else if (i+j)%3 == 0 {
+				plans = append(plans, ptr.Plan{SignalAt: j, Signal: []syscall.Signal{syscall.SIGINT, syscall.SIGPIPE}[(i+j)/3%2]})
 			}
 			for _, plan := range plans {
 				r, err := runGxz(c, bin, sc, plan)
